@@ -17,7 +17,7 @@ one() {
     echo "$d  check=$prop  PATCH-DOES-NOT-APPLY"; rm -rf $scratch; return
   fi
   for c in $prop $EXTRA_CHECKS; do
-    out=$(VERIF_REPO=$scratch/repo VF_OUT_DIR=$scratch/out VERIF_SEED=${VERIF_SEED:-1} ./check $c quick 2>&1 | grep -a "VIOLATION\|quick seed\|HARNESS\|sig=" | head -6)
+    out=$(VF_NO_MINIMISE=1 VERIF_REPO=$scratch/repo VF_OUT_DIR=$scratch/out VERIF_SEED=${VERIF_SEED:-1} ./check $c quick 2>&1 | grep -a "VIOLATION\|quick seed\|HARNESS\|sig=" | head -6)
     if echo "$out" | grep -q VIOLATION; then verdict=CAUGHT; elif echo "$out" | grep -q HARNESS; then verdict=HARNESS-ERROR; else verdict=missed; fi
     echo "$d  check=$c  $verdict  :: $(echo "$out" | grep -a 'sig=' | head -1 | cut -c1-160)"
   done
